@@ -81,8 +81,15 @@ impl SimScheduler {
         let mut rng = Rng::new(seed ^ 0x5ced_5ced_5ced_5ced);
         let mut change_points = Vec::new();
         if let SchedSpec::Pct { depth, est_steps, .. } = &spec {
+            // change points are placed log-uniformly over [1, 4 x estimate]: the
+            // number of decisions of a run is only known roughly beforehand, and a
+            // log-uniform draw puts a point inside the run with fair probability
+            // whether the run turns out ten times shorter or longer than guessed
+            let hi = ((*est_steps).max(16) * 4) as f64;
             for _ in 1..*depth {
-                change_points.push(rng.range(1, (*est_steps).max(1)));
+                let u = (rng.next_u64() >> 11) as f64 / (1u64 << 53) as f64;
+                let p = hi.powf(u).floor() as u64;
+                change_points.push(p.max(1));
             }
         }
         (
